@@ -154,6 +154,9 @@ def deep_copy_rule(index: RepoIndex, rep, rule: str) -> None:
               src(b[-1]), 'fast_copy is not a plain deep copy of its argument (a cached or '
               'partial copy can hand back the objects of another state, or one object for two '
               'cells)', 'fast_copy deep')
+    # ... and it is the caller's state that is copied, once, and the copy that is returned
+    from .wiring import step_on_callers_state
+    step_on_callers_state(index, rep, rule)
 
 
 def run(index: RepoIndex, rep) -> None:
